@@ -1334,7 +1334,9 @@ emitfunc(struct func *f, bool global)
 			emitvalue(b->phi.val[1]);
 			putchar('\n');
 		}
-		instend = (struct inst **)((char *)b->insts.val + b->insts.len);
+		instend = b->insts.val;
+		if (b->insts.len)
+			instend = (struct inst **)((char *)b->insts.val + b->insts.len);
 		for (inst = b->insts.val; inst != instend;)
 			inst = emitinst(inst, instend);
 		emitjump(&b->jump);
